@@ -126,7 +126,7 @@ pub struct NodeRun {
     pub guarded_reads: u64,
 }
 
-fn ext_obs<S: ChainStore>(s: &S, h: &Byte32) -> Option<ExtObs> {
+pub fn ext_obs<S: ChainStore>(s: &S, h: &Byte32) -> Option<ExtObs> {
     s.get_block_ext(h).map(|e| ExtObs {
         verified: e.verified,
         fees: e.txs_fees.iter().map(|c| c.as_u64()).collect(),
